@@ -726,6 +726,16 @@ def _diff(I, a, k):
     if n != 1:
         raise Unsupported("np.diff n != 1")
     x = A.as_sarr(a[0])
+    if k.get("append") is not None:
+        raise Unsupported("np.diff append=")
+    if k.get("prepend") is not None:
+        # A-NP-SPEC diff(prepend=p): the difference of concatenate(([p], x)) along the axis
+        if x.ndim != 1:
+            raise Unsupported("np.diff prepend= on a n-d array")
+        pre = A.as_sarr(k["prepend"])
+        if pre.ndim == 0:
+            pre = A.reshape(pre, (1,))
+        x = A.concatenate([pre, x], axis=0)
     if x.dtype.kind == "b":
         hi = [slice(None)] * x.ndim
         lo = [slice(None)] * x.ndim
@@ -1623,6 +1633,51 @@ def _matmul(I, a, k):
     return out
 
 
+def _is_whole(t, depth=0):
+    """the real-sorted term t denotes a whole number whatever its free variables are (sufficient syntactic test)"""
+    if depth > 40:
+        return False
+    if z3.is_rational_value(t):
+        return t.denominator_as_long() == 1
+    if z3.is_int_value(t):
+        return True
+    if not z3.is_app(t):
+        return False
+    kd = t.decl().kind()
+    if kd == z3.Z3_OP_TO_REAL:
+        return True
+    if t.sort() == z3.IntSort():
+        return True
+    if kd in (z3.Z3_OP_ADD, z3.Z3_OP_SUB, z3.Z3_OP_MUL, z3.Z3_OP_UMINUS):
+        return all(_is_whole(c, depth + 1) for c in t.children())
+    if kd == z3.Z3_OP_ITE:
+        return _is_whole(t.arg(1), depth + 1) and _is_whole(t.arg(2), depth + 1)
+    return False
+
+
+def _whole_as_int(t):
+    """the integer term equal to a real term accepted by _is_whole"""
+    if z3.is_rational_value(t):
+        return z3.IntVal(t.numerator_as_long())
+    if t.sort() == z3.IntSort():
+        return t
+    kd = t.decl().kind()
+    if kd == z3.Z3_OP_TO_REAL:
+        return t.arg(0)
+    ch = [_whole_as_int(c) for c in t.children()] if kd != z3.Z3_OP_ITE else None
+    if kd == z3.Z3_OP_ADD:
+        return z3.Sum(ch)
+    if kd == z3.Z3_OP_SUB:
+        return ch[0] - z3.Sum(ch[1:]) if len(ch) > 1 else ch[0]
+    if kd == z3.Z3_OP_MUL:
+        return z3.Product(ch)
+    if kd == z3.Z3_OP_UMINUS:
+        return -ch[0]
+    if kd == z3.Z3_OP_ITE:
+        return z3.If(t.arg(0), _whole_as_int(t.arg(1)), _whole_as_int(t.arg(2)))
+    return z3.ToInt(t)
+
+
 @model(np.cumsum)
 def _cumsum(I, a, k):
     """A-NP-SPEC cumsum (1-D): out[0] = x[0], out[k] = out[k-1] + x[k]"""
@@ -1650,10 +1705,26 @@ def _cumsum(I, a, k):
         raise Unsupported("cumsum of a n-d array")
     dt = np.dtype("int64") if x.dtype.kind in "biu" else x.dtype
     s = x.snapshot()
-    f = z3.Function(fresh_name("cumsum"), z3.IntSort(), A.sort_of(dt))
     n = A.T(x.shape[0])
     kq = z3.Int(fresh_name("cs"))
     el = lambda q: A.cast_term(x.dtype, dt, s((q,)))      # noqa
+    c_ = A.cur()
+    if dt.kind == "f" and c_ is not None:
+        # a float vector all of whose elements are whole numbers (e.g. np.ones with some entries replaced by integers): the running sums are whole
+        # numbers, and exact in double precision below 2**53 (A-FLOAT: machine arithmetic treated as mathematical); they are then represented as the
+        # image of an integer function, so that a later astype(int) is the identity without the solver having to find that out by induction
+        q0 = z3.Int(fresh_name("q"))
+        try:
+            whole = _is_whole(z3.simplify(el(q0)))      # syntactic (z3 does not terminate on is_int goals over if-then-else terms)
+        except Exception:
+            whole = False
+        if whole:
+            fi = z3.Function(fresh_name("cumsum_whole"), z3.IntSort(), z3.IntSort())
+            eli = lambda q: _whole_as_int(z3.simplify(el(q)))      # noqa
+            A.note_fact(z3.Implies(n >= 1, fi(z3.IntVal(0)) == eli(z3.IntVal(0))),
+                        z3.ForAll([kq], z3.Implies(z3.And(kq >= 1, kq < n), fi(kq) == fi(kq - 1) + eli(kq)), patterns=[fi(kq)]))
+            return SArr(dt, (x.shape[0],), lambda idx: z3.ToReal(fi(idx[0])))
+    f = z3.Function(fresh_name("cumsum"), z3.IntSort(), A.sort_of(dt))
     A.note_fact(z3.Implies(n >= 1, f(z3.IntVal(0)) == el(z3.IntVal(0))),
                 z3.ForAll([kq], z3.Implies(z3.And(kq >= 1, kq < n), f(kq) == f(kq - 1) + el(kq)), patterns=[f(kq)]))
     return SArr(dt, (x.shape[0],), lambda idx: f(idx[0]))
